@@ -52,7 +52,7 @@ def main(argv):
                 item = spec["items"][entry["item"]]
                 if item.get("stdin") is not None:
                     sys.stdin = _Stdin(item["stdin"].encode("utf-8"))   # `-` on the command line: spooled to a temp file
-                rc, extra_err, exc = run_command(["graphtage"] + item["argv"])
+                rc, extra_err, exc = run_command(["graphtage"] + item["argv"], embedded=True)
                 if exc is not None:
                     raise exc
                 rec["rc"] = rc
